@@ -274,3 +274,128 @@ impl<U: ?Sized> Drop for MappedRwLockReadGuard<'_, U> {
         self.raw.unlock_read();
     }
 }
+
+#[cfg(test)]
+mod tests {
+    //! The shim must provide mutual exclusion, condvar wake-ups without losing one, a working
+    //! `unlocked_fair`, and parking_lot's reader/writer policy - checked under shuttle itself.
+    use super::*;
+    use std::sync::atomic::{AtomicUsize, Ordering};
+    use std::sync::Arc;
+
+    fn with_ctx<F: Fn() + Send + Sync + 'static>(f: F, iterations: usize) {
+        shuttle::check_random(
+            move || {
+                raindb_verif_rt::install(raindb_verif_rt::RunCtx::default());
+                f();
+            },
+            iterations,
+        );
+    }
+
+    #[test]
+    fn mutex_gives_mutual_exclusion() {
+        with_ctx(
+            || {
+                let m = Arc::new(Mutex::new(0usize));
+                let inside = Arc::new(AtomicUsize::new(0));
+                let mut hs = vec![];
+                for _ in 0..3 {
+                    let (m, inside) = (Arc::clone(&m), Arc::clone(&inside));
+                    hs.push(shuttle::thread::spawn(move || {
+                        for _ in 0..3 {
+                            let mut g = m.lock();
+                            assert_eq!(inside.fetch_add(1, Ordering::SeqCst), 0, "two tasks inside the critical section");
+                            shuttle::thread::yield_now();
+                            *g += 1;
+                            inside.fetch_sub(1, Ordering::SeqCst);
+                        }
+                    }));
+                }
+                for h in hs {
+                    h.join().unwrap();
+                }
+                assert_eq!(*m.lock(), 9);
+            },
+            300,
+        );
+    }
+
+    #[test]
+    fn unlocked_fair_really_unlocks_and_relocks() {
+        with_ctx(
+            || {
+                let m = Arc::new(Mutex::new(0usize));
+                let m2 = Arc::clone(&m);
+                let mut g = m.lock();
+                let h = shuttle::thread::spawn(move || {
+                    *m2.lock() += 10;
+                });
+                // the other task can only finish if the lock is released inside unlocked_fair
+                MutexGuard::unlocked_fair(&mut g, || {
+                    h.join().unwrap();
+                });
+                assert_eq!(*g, 10);
+                *g += 1;
+                drop(g);
+                assert_eq!(*m.lock(), 11);
+            },
+            300,
+        );
+    }
+
+    #[test]
+    fn condvar_does_not_lose_a_wakeup() {
+        with_ctx(
+            || {
+                let pair = Arc::new((Mutex::new(false), Condvar::new()));
+                let p2 = Arc::clone(&pair);
+                let h = shuttle::thread::spawn(move || {
+                    let (m, cv) = &*p2;
+                    *m.lock() = true;
+                    cv.notify_all();
+                });
+                let (m, cv) = &*pair;
+                let mut g = m.lock();
+                while !*g {
+                    cv.wait(&mut g);
+                }
+                drop(g);
+                h.join().unwrap();
+            },
+            500,
+        );
+    }
+
+    #[test]
+    fn rwlock_allows_readers_together_and_excludes_writers() {
+        with_ctx(
+            || {
+                let l = Arc::new(RwLock::new(0usize));
+                let writers_inside = Arc::new(AtomicUsize::new(0));
+                let mut hs = vec![];
+                for i in 0..3 {
+                    let (l, w) = (Arc::clone(&l), Arc::clone(&writers_inside));
+                    hs.push(shuttle::thread::spawn(move || {
+                        if i == 0 {
+                            let mut g = l.write();
+                            assert_eq!(w.fetch_add(1, Ordering::SeqCst), 0);
+                            shuttle::thread::yield_now();
+                            *g += 1;
+                            w.fetch_sub(1, Ordering::SeqCst);
+                        } else {
+                            let g = l.read();
+                            assert_eq!(w.load(Ordering::SeqCst), 0, "reader inside while a writer holds the lock");
+                            let _ = *g;
+                        }
+                    }));
+                }
+                for h in hs {
+                    h.join().unwrap();
+                }
+                assert_eq!(*l.read(), 1);
+            },
+            300,
+        );
+    }
+}
